@@ -25,7 +25,7 @@ func VpHHeader() {
 
 // H-CODEC(2): ValueStruct Encode/EncodeTo/Decode/EncodedSize.
 func VpHValueStruct() {
-	lv := vpChoose("lenV", 4)
+	lv := vpChoose("lenV", vpParam("vs.maxlen", 3)+1)
 	v := y.ValueStruct{Meta: vpU8("meta"), UserMeta: vpU8("umeta"), ExpiresAt: vpU64("exp"), Value: vpBytes("val", lv)}
 	sz := v.EncodedSize()
 	buf := make([]byte, sz)
